@@ -19,8 +19,9 @@ RULES = {
     'R6': 'server shm disconnect: SIGBUS handler installed before any ring close, setjmp test before them, handler restored on every exit',
     'R7': 'once the transport connect has created the per-client resources the connection is in a state in which the transport disconnect releases them (ACTIVE) before anything else can fail: no path from a successful connect reaches the response send (or any later failure exit) with the state still INACTIVE',
     'R8': 'the client disconnect refreshes its liveness knowledge (a call that can clear is_connected) before the transport destructor chooses between plain and forced close',
+    'R9': 'the client is never told to try again by a dead server: in qb_ipcc_send, qb_ipcc_sendv and qb_ipcc_sendv_recv every return that can be -EAGAIN (flow control on, request queue full) comes from a call that consults the liveness socket (reaches qb_ipc_us_ready) - a killed server leaves flow control on and the queue full for ever; and once the disconnect is known (is_connected false) qb_ipcc_recv does not wait',
 }
-FLOORS = {'R1': 9, 'R2': 10, 'R3': 6, 'R4': 7, 'R5': 5, 'R6': 3, 'R7': 2, 'R8': 2}
+FLOORS = {'R1': 9, 'R2': 10, 'R3': 6, 'R4': 7, 'R5': 5, 'R6': 3, 'R7': 2, 'R8': 2, 'R9': 7}
 
 POLLNVAL, POLLHUP, POLLIN = 0x20, 0x10, 0x1
 
@@ -34,6 +35,7 @@ def run(ctx):
     r6(ctx)
     r7(ctx)
     r8(ctx)
+    r9(ctx)
 
 
 def _scenario(f, init, tracked, mark_call, start=None, effect=None):
@@ -354,7 +356,11 @@ def r4(ctx):
     ctx.check('R4', 'sendv_recv:retry-needs-connected', ok, rc, 'the retry loop continues only while is_connected', 'the retry loop ignores is_connected (waits forever on a dead server)')
     r = prog.fn('qb_ipcc_recv')
     chk = list(r.calls('_check_connection_state_with'))
-    tr = list(r.calls('qb_ipcc_funcs::recv'))
+
+    def known_dead(blk):
+        # inside the branch taken when the disconnect is already known: nothing left to find out
+        return any(field_is(a.l, 'is_connected') and ((a.op == '==' and a.rc == 0) or (a.op == '!=' and a.rc == 1)) for (a, _e) in r.guards(blk))
+    tr = [ev for ev in r.calls('qb_ipcc_funcs::recv') if not known_dead(ev.blk)]
     ok = len(chk) == 1 and len(tr) == 1 and r.ev_dominates(tr[0], chk[0])
     if ok:
         # every negative result goes through the check
@@ -364,7 +370,7 @@ def r4(ctx):
                 rv = estr(st.lhs)
         neg_exit = []
         for b in r.blocks.values():
-            if b.cond is None:
+            if b.cond is None or known_dead(b.id):
                 continue
             for (t, lab) in b.succs:
                 if lab in (True, False) and any(a.ls == rv and a.op == '<' and a.rc == 0 for a in atoms_of(b.cond, lab)):
@@ -526,3 +532,105 @@ def r8(ctx):
     sd = prog.fn('qb_ipcc_shm_disconnect')
     reads = [ev for ev in ctx.inl(sd, 2).events('LOAD') if last_field(ev.e) == ('qb_ipcc_connection', 'is_connected')]
     ctx.check('R8', 'destructor-reads-is_connected', bool(reads), sd, 'the shm client destructor chooses by is_connected', 'the shm client destructor no longer looks at is_connected (re-confirm R5/R8)')
+
+
+def _reaches(prog, name, target, depth=4, seen=None, file=None):
+    """does function `name` (in the analysed units; a static name is looked up in the caller's file first) call `target`,
+    directly or through other functions?"""
+    seen = seen if seen is not None else set()
+    cands = prog.fns.get(name, [])
+    same = [g for g in cands if g.file == file]
+    cands = same or cands
+    if (name, file) in seen or depth < 0 or not cands:
+        return False
+    seen.add((name, file))
+    for g in cands:
+        for ev in g.events('CALL'):
+            if ev.callee == target or (ev.callee and _reaches(prog, ev.callee, target, depth - 1, seen, g.file)):
+                return True
+    return False
+
+
+def r9(ctx):
+    prog = ctx.prog
+    EAGAIN = -11
+    for fname in ('qb_ipcc_send', 'qb_ipcc_sendv', 'qb_ipcc_sendv_recv'):
+        f = prog.fn(fname)
+        # (a) no bare "try again": a return of the constant -EAGAIN
+        for ev in f.returns():
+            if ev.e is None:
+                continue
+            c = cval(unwrap(ev.e))
+            if c == EAGAIN:
+                ctx.check('R9', '%s:no-bare-EAGAIN' % fname, False, ev, '',
+                          '%s returns -EAGAIN without having looked at the liveness socket: when the server was killed with flow control on (or the '
+                          'request queue full) every call returns -EAGAIN for ever and the disconnect is never reported' % fname)
+        # (b) the flow-control edge: fc_get said "hold off" -> what is returned there consults the socket
+        fcs = [st for st in f.events('STORE') if st.rhs is not None and callee_of(unwrap(st.rhs)) == 'qb_ipcc_funcs::fc_get']
+        if len(fcs) != 1:
+            raise AnalysisBroken('%s: fc_get sites = %d' % (fname, len(fcs)))
+        rv = estr(fcs[0].lhs)
+        n_edges = 0
+        for b in f.blocks.values():
+            if b.cond is None:
+                continue
+            for (t, lab) in b.succs:
+                if lab not in (True, False):
+                    continue
+                ats = atoms_of(b.cond, lab)
+                if any(a.ls == rv and a.op == '<=' and field_is(a.r, 'fc_enable_max') for a in ats):
+                    n_edges += 1
+                    rets, _e, _n = f.search(('edge', b.id, t), goal=lambda ev: ev.kind == 'RETURN', stop=lambda ev: ev.kind == 'RETURN')
+                    ok = bool(rets)
+                    for (rev, _p) in rets:
+                        r = unwrap(rev.e) if rev.e is not None else {}
+                        calls = [callee_of(n) for n in walk(r) if n.get('k') == 'call']
+                        srcs, _en = value_sources(f, rev.e, rev) if rev.e is not None else ([], False)
+                        calls += [callee_of(unwrap(x)) for x in srcs if x.get('k') != 'update' and unwrap(x).get('k') == 'call']
+                        ok = ok and any(cn and _reaches(prog, cn, 'qb_ipc_us_ready', file=f.file) for cn in calls)
+                    ctx.check('R9', '%s:flow-control-edge-consults-liveness' % fname, ok, fcs[0], 'with flow control on the answer comes from a look at the liveness socket',
+                              '%s answers "flow control is on" without looking at the liveness socket: a killed server leaves it on for ever' % fname)
+        if n_edges == 0:
+            raise AnalysisBroken('%s: flow-control edge not found' % fname)
+        # (c) a full queue: the transport send result is returned through a call that consults the socket when it is -EAGAIN
+        sends = [st for st in f.events('STORE') if st.rhs is not None and callee_of(unwrap(st.rhs)) in ('qb_ipcc_funcs::send', 'qb_ipcc_funcs::sendv')]
+        for sd in sends:
+            sv = estr(sd.lhs)
+
+            def not_again(a, fb, sv=sv):
+                return a.ls == sv and ((a.op == '!=' and a.rc == EAGAIN) or (a.op in ('>=', '>') and a.rc is not None and a.rc >= 0))
+            bad = None
+            for ev in f.returns():
+                if not f.may_follow(sd, ev) or ev.e is None:
+                    continue
+                r = unwrap(ev.e)
+                calls = [callee_of(n) for n in walk(r) if n.get('k') == 'call']
+                if any(cn and _reaches(prog, cn, 'qb_ipc_us_ready', file=f.file) for cn in calls):
+                    continue
+                if not mentions_var(ev.e, sv) and not any(cn for cn in calls):
+                    continue
+                # this return hands the send result back without a look at the socket: fine only where it cannot be -EAGAIN
+                if f.uncut_path(ev, not_again, start=('after', sd)) is not None:
+                    bad = ev
+            ctx.check('R9', '%s:queue-full-consults-liveness' % fname, bad is None, bad or sd, 'a send refused with -EAGAIN is answered after a look at the liveness socket',
+                      '%s hands -EAGAIN from the transport (request queue full) back without looking at the liveness socket: a client that keeps '
+                      'sending to a killed server fills the ring itself and is told to try again for ever' % fname)
+    # (d) no waiting once the disconnect is known
+    r = prog.fn('qb_ipcc_recv')
+    waits = [ev for ev in r.events() if (ev.kind == 'CALL' and ev.callee == 'qb_ipcc_funcs::recv') or
+             (ev.kind == 'STORE' and ev.rhs is not None and callee_of(unwrap(ev.rhs)) == 'qb_ipcc_funcs::recv')]
+    tmo = r.params[3]['n']
+
+    def connected(a, fb):
+        return field_is(a.l, 'is_connected') and ((a.op == '!=' and a.rc == 0) or (a.op == '==' and a.rc == 1))
+    n = 0
+    for w in waits:
+        call = unwrap(w.rhs) if w.kind == 'STORE' else w.d.get('e')
+        targ = call['args'][3]
+        if cval(unwrap(targ)) == 0:
+            continue
+        n += 1
+        ctx.check('R9', 'qb_ipcc_recv:no-wait-when-disconnected', r.uncut_path(w, connected) is None, w, 'the caller\'s timeout is used only while is_connected',
+                  'qb_ipcc_recv waits for the caller\'s timeout (%s) although the disconnect is already known: "later calls fail immediately" - a recv(-1) never returns' % estr(targ))
+    if n == 0:
+        raise AnalysisBroken('qb_ipcc_recv: no timed receive found')
